@@ -35,6 +35,8 @@ GStep ==
      \* the link re-reads the channel state of a LIVE channel from the database (channelLink.UpdateShortChanID ->
      \* OpenChannel.Refresh, when the funding tx of a zero-conf channel confirms): the state machine continues on the
      \* refreshed objects; nothing about the commitment state changes, in memory or on disk (C02, C06)
+     \* an adversarial peer: a revoke_and_ack carrying a secret that is not on its chain arrives first
+     \/ \E p \in Party : Len(hist) % 3 = 2 /\ RecvBadRev(p) /\ Rec(Ev("RecvBadRev", p, 0, 0))
      \/ \E p \in Party : Len(hist) % 9 = 7 /\ LiveRefresh(p) /\ Rec(Ev("LiveRefresh", p, 0, 0))
 GNext == Len(hist) < MaxLen /\ GStep
 GSpec == GInit /\ [][GNext]_<<vars, hist>>
